@@ -49,8 +49,10 @@ func effLimit(l int) int {
 
 // heapMonitor samples the live heap while one message is in flight.
 type heapMonitor struct {
-	base, peak uint64
-	reads      int
+	base, peak           uint64
+	stackBase, stackPeak uint64 // goroutine stack memory in use (process-wide)
+	reads                int
+	every                int // sample every n-th read (default 2048)
 }
 
 func (h *heapMonitor) sample() {
@@ -60,18 +62,27 @@ func (h *heapMonitor) sample() {
 	if m.HeapAlloc > h.peak {
 		h.peak = m.HeapAlloc
 	}
+	if m.StackInuse > h.stackPeak {
+		h.stackPeak = m.StackInuse
+	}
 }
 
+func (h *heapMonitor) stackExcess() int64 { return int64(h.stackPeak) - int64(h.stackBase) }
+
 func (h *heapMonitor) start() {
-	h.peak = 0
+	h.peak, h.stackPeak = 0, 0
 	h.sample()
-	h.base = h.peak
+	h.base, h.stackBase = h.peak, h.stackPeak
 	h.reads = 0
 }
 
 func (h *heapMonitor) onRead() {
 	h.reads++
-	if h.reads <= 8 || h.reads%2048 == 0 {
+	every := h.every
+	if every == 0 {
+		every = 2048
+	}
+	if h.reads <= 8 || h.reads%every == 0 {
 		h.sample()
 	}
 }
@@ -457,17 +468,34 @@ func init() {
 		ID:          "C10",
 		Level:       "model_checking",
 		Technique:   "exhaustive enumeration of (limit x declared length x message type x position in the exchange) on a real server with a zero-generating transport and a live-heap monitor, plus the same boundary enumeration directly on buffer.Reader; within-limit cases are judged differentially against a large limit, oversized cases against the protocol rule",
-		Rule:        "limits 12..40, 4095, 4096, 4097, 65536, 0 and -1 (default 16 MiB); body sizes {0,1,L-1,L,L+1,L+2,2L,2L+1,3L+7}, raw declared lengths 0..3, and 2^16, 2^31-5, 2^31-4, 2^32-5 for L >= 4096; all 13 client types + an unknown type; positions startup / password / first message / between queries / after Parse / inside COPY; every message is followed by a probe query",
+		Rule:        "limits 12..40, 4095, 4096, 4097, 65536, 0 and -1 (default 16 MiB); body sizes {0,1,L-1,L,L+1,L+2,2L,2L+1,3L+7}, raw declared lengths 0..3, and 2^16, 2^31-5, 2^31-4, 2^32-5 for L >= 4096; all 13 client types + an unknown type; positions startup / password / first message / between queries / after Parse / inside COPY / inside a TLS-upgraded session (limits 1 KiB, 8 KiB, 20000; Query and Bind bodies of L-1, L, L+1, 2L, 16383..16385, 20000, 70000 bytes; differential against the plaintext session); every message is followed by a probe query",
 		Assumptions: []string{"not asserted: a ReadyForQuery after the 54000 error; continue-or-close after a sub-minimum length", "live heap is sampled (forced GC) at the first 8 and every 2048th transport read while the message is in flight"},
 		Enumerate:   c10Enumerate,
 		Bounds: func(tier string) map[string]any {
 			return map[string]any{"limits": c10Limits(tier), "types": string(c10Types)}
 		},
-		RequiredOutcomes: []string{"within-limit", "oversized-session", "oversized-handshake", "sub-minimum", "direct-reader"},
+		RequiredOutcomes: []string{"within-limit", "oversized-session", "oversized-handshake", "sub-minimum", "direct-reader", "tls-session"},
 	})
 }
 
 func c10Enumerate(tier string, emit explore.Emit) {
+	// position "inside a TLS-upgraded session": the limit applies there exactly as on a plaintext connection
+	// (differential against the plaintext session, whose conformance the families below establish)
+	tlsLimits := []int{1024, 8192, 20000}
+	if tier == "thorough" {
+		tlsLimits = []int{64, 1024, 4096, 8192, 16384, 20000, 65536, 1 << 20}
+	}
+	for _, c := range c11SizedCases(tlsLimits) {
+		if c.Cfg != "certs" {
+			continue
+		}
+		c := c
+		emit(explore.Case{Family: "tls-session", Size: 3, Desc: func() any { return c.String() }, Run: func() explore.Result {
+			r := c11Run(c)
+			r.Outcome = "tls-session"
+			return r
+		}})
+	}
 	add := func(c c10Case) {
 		emit(explore.Case{Family: c.Pos, Size: 1, Desc: func() any { return c.String() }, Run: func() explore.Result { return c10Run(c) }})
 	}
